@@ -102,7 +102,26 @@ def main(argv=None):
                 print(f"VIOLATION property={prop} replay={args.replay}")
                 return 1
             return 0
+        if payload.get("source") == "rtc":
+            from . import rtc
+            tree = build.scratch_tree(sanitize=False)
+            js = [j for j in mod.jobs(args.tier) if j.tag == payload["kernel"]]
+            inp = {k: rtc.unjson(v) for k, v in payload["inputs"].items()}
+            res = rtc.run_layer(js, os.path.join(tree, "src"), args.tier, seed, extra={payload["kernel"]: [inp]}) if js else []
+            bad = [v for r in res for v in r["violated"] if v["inputs"] == payload["inputs"]]
+            print(json.dumps(bad[:3], indent=1, default=str)[:3000])
+            if bad:
+                print(f"VIOLATION property={prop} replay={args.replay}")
+                return 1
+            return 0
         args.only_obligation = payload.get("obligation")
+
+    # replay files of earlier runs of this property are stale once a new run starts
+    rdir = os.path.join(VERIF, "replays", prop)
+    if os.path.isdir(rdir) and not args.replay:
+        for fn in os.listdir(rdir):
+            if fn.endswith(".json"):
+                os.unlink(os.path.join(rdir, fn))
 
     # ------------------------------------------------------------ P layer
     P = {"jobs": 0, "obligations": 0, "discharged": 0, "by_backend": {}, "solver_s": 0.0,
@@ -206,6 +225,21 @@ def main(argv=None):
             broken.append("bounded: " + rep["error"])
             rep = None
 
+    # ------------------------------------------------------------ R layer: run-time check of the kernel contracts
+    rtc_res, rtc_fail = [], {}
+    if not args.only_bounded and not args.no_bounded and not broken:
+        try:
+            from . import rtc
+            tree = build.scratch_tree(sanitize=False)
+            rtc_res = rtc.run_layer(mod.jobs(args.tier), os.path.join(tree, "src"), args.tier, seed)
+        except build.BuildError as e:
+            broken.append(f"scratch build failed: {str(e)[-800:]}")
+        for rr in rtc_res:
+            if rr.get("error"):
+                broken.append(f"run-time contract check of {rr['tag']} crashed: {rr['error'][-300:]}")
+            for v in rr.get("violated", []):
+                rtc_fail.setdefault(rr["func"], []).append((rr["tag"], v))
+
     # ------------------------------------------------------------ classification
     nrep = 0
     bounded_fail_checks = set()
@@ -239,7 +273,17 @@ def main(argv=None):
     for r in grouped.values():
         nrep += 1
         confirmed = None
-        if hasattr(mod, "replay_refuted"):
+        fkey = (r.get("func") or "").split("[")[0]
+        hit = rtc_fail.get(fkey) or rtc_fail.get(r.get("tag", "")) or \
+            next((v for k, v in rtc_fail.items() if k and (k in (r.get("tag") or "") or k in r["id"])), None)
+        if hit:
+            tag, v = hit[0]
+            confirmed = {"failed": True, "how": "run-time check of the same contract on the rebuilt kernel (pvc/rtc.py)",
+                         "kernel": tag, "clause": v["clause"], "detail": v["detail"], "inputs": v["inputs"],
+                         "result": v.get("result"), "arrays_after_call": v.get("after")}
+            for x in hit:
+                x[1]["reported"] = True
+        if confirmed is None and hasattr(mod, "replay_refuted"):
             try:
                 confirmed = mod.replay_refuted(r, build)
             except Exception as e:
@@ -255,6 +299,25 @@ def main(argv=None):
         suffix = "" if (confirmed and confirmed.get("failed")) or bounded_fail_checks else " no-failing-input-found"
         violations.append(f"VIOLATION property={prop} replay={path}{suffix}")
         lines.append(f"  refuted obligation {r['id'][:220]}  model={json.dumps(r.get('model'))[:300]}")
+    for func, lst in rtc_fail.items():
+        rest = [(t, v) for t, v in lst if not v.get("reported")]
+        seen_cl = set()
+        for tag, v in rest:
+            ident = f"rtc:{tag}/{v['clause']}"
+            if v["clause"] in seen_cl:
+                continue
+            seen_cl.add(v["clause"])
+            k = match_known(known, prop, ident)
+            if k:
+                known_hits.append((ident, k))
+                continue
+            nrep += 1
+            path = write_replay(prop, nrep, {"property": prop, "source": "rtc", "kernel": tag, "clause": v["clause"],
+                                             "detail": v["detail"], "inputs": v["inputs"], "result": v.get("result"),
+                                             "arrays_after_call": v.get("after"),
+                                             "note": "contract clause evaluated by CPython on the output of the rebuilt kernel"})
+            violations.append(f"VIOLATION property={prop} replay={path}")
+            lines.append(f"  contract clause of {tag} fails at run time on the rebuilt kernel: `{v['clause'][:160]}` {v['detail'][:120]}")
     for r in P["undecided"]:
         undecided.append(r["id"])
         lines.append(f"  UNDECIDED obligation {r['id'][:220]} ({r.get('detail')}; was proved on baseline: {r['id'] in baseline})")
@@ -294,6 +357,16 @@ def main(argv=None):
         cov["distinct_nontrivial"] = int(rep.get("distinct_nontrivial") or 0)
         cov["rule"] = rep.get("rule") or ""
         cov["samples"] = (P["samples"] + rep.get("samples", [])[:4]) or ["(none)"]
+    if rtc_res:
+        cov["runtime_contract_check"] = {
+            "label": "bounded (run-time evaluation of the proved contracts on the rebuilt kernels; never counted as proved)",
+            "how": "inputs = z3 models of the requires in a small scope; real compiled function called in a separate "
+                   "interpreter; every ensures clause evaluated by a CPython evaluator of the spec language (pvc/rtc.py)",
+            "kernels": {rr["tag"]: {"cases": rr.get("cases"), "clause_evaluations": rr.get("evaluated"), "hold": rr.get("holds"),
+                                    "violated": len(rr.get("violated", [])), "no_return_within_budget": rr.get("nonterminating"),
+                                    "raised_exception_not_excluded_by_contract": rr.get("raised"),
+                                    "clauses_not_evaluable_at_run_time": rr.get("skipped"), "inapplicable": rr.get("inapplicable")}
+                        for rr in rtc_res}}
     if not cov["samples"]:
         cov["samples"] = ["(no obligations generated)"]
     ev = {"property_id": prop, "tier": args.tier, "seed": seed, "level": level_out, "coverage": cov,
@@ -305,7 +378,9 @@ def main(argv=None):
     # ------------------------------------------------------------ report
     print(f"{prop} [{args.tier}] obligations={P['obligations']} discharged={P['discharged']} "
           f"refuted={len(P['refuted'])} undecided={len(P['undecided'])} inapplicable={len(P['inapplicable'])} "
-          f"bounded={'%s evals, %s failures' % (rep.get('evaluations'), rep.get('n_failures')) if rep else 'n/a'} wall={wall}s")
+          f"bounded={'%s evals, %s failures' % (rep.get('evaluations'), rep.get('n_failures')) if rep else 'n/a'} "
+          f"rtc={sum(rr.get('evaluated') or 0 for rr in rtc_res)} clause evals on {len(rtc_res)} kernels, "
+          f"{sum(len(rr.get('violated', [])) for rr in rtc_res)} violated wall={wall}s")
     for ln in lines:
         print(ln)
     for ident, k in known_hits:
